@@ -98,6 +98,11 @@ class ConfigList(ComposedNode, list):
     def remove(self, value):
         self._del(self.index(value))
 
+    def pop(self, index=-1):
+        value = self[index] # IndexError for an empty list / an index out of range, like list.pop
+        self._del(index)
+        return value
+
     def clear(self):
         ComposedNode.ayns.clear(self)
         list.clear(self)
